@@ -87,5 +87,5 @@ def run(ck):
                        "the history is ordered by a mutex-protected log: a task logs fin (and sets its flag) as its last action, the driver logs "
                        "return after All returned, so 'return before fin' in the history implies a real early return; the converse can be missed "
                        "only within the few instructions between a task's log entry and its actual return",
-                       "for a failing task only its error slot is judged (the statement says 'either its value or its error')",
+                       "'either its value or its error': the value slot of a failing task is the zero value even when the task returned a value with its error (callers filter on it)",
                        "schedules are sampled (seeded timing), not enumerated; the exhaustive part is the TLC design model"]
